@@ -61,6 +61,7 @@ type c13Chain struct {
 	commits []*types.Commit // commits[h]: every validator of height h signed block h
 	states  []sm.State      // states[h] = state after block h; states[0] = genesis state
 	t0      time.Time
+	nilAt   map[int64]bool
 
 	mu       sync.Mutex
 	regHash  map[string]string       // header hash (hex) -> abstract id
@@ -73,6 +74,7 @@ type c13ValCfg struct {
 	Powers []int64 `json:"powers"` // genesis validators
 	AddAt  int64   `json:"addAt"`  // height whose EndBlock adds a validator (0 = never); active from addAt+2
 	AddPow int64   `json:"addPow"`
+	NilAt  []int64 `json:"nilAt"` // heights at which the last validator of the set precommits nil
 }
 
 func c13Txs(h int64, salt byte) types.Txs {
@@ -109,6 +111,10 @@ func c13GenChain(vc c13ValCfg, tmax int) *c13Chain {
 	ch := &c13Chain{tmax: tmax, privs: map[string]types.PrivValidator{}, regHash: map[string]string{},
 		regPSH: map[string]string{}, uidCache: map[*types.Block]string{}, variants: map[string]*types.Block{}, updates: map[int64][]abci.ValidatorUpdate{}}
 	ch.t0 = time.Date(2020, 1, 1, 0, 0, 0, 0, time.UTC)
+	ch.nilAt = map[int64]bool{}
+	for _, h := range vc.NilAt {
+		ch.nilAt[h] = true
+	}
 	var gvals []types.GenesisValidator
 	for _, pw := range vc.Powers {
 		pv := types.NewMockPV()
@@ -150,11 +156,16 @@ func c13GenChain(vc c13ValCfg, tmax int) *c13Chain {
 		bid := types.BlockID{Hash: block.Hash(), PartSetHeader: parts.Header()}
 		ch.blocks[h], ch.ids[h] = block, bid
 		ch.register(block, bid, "C"+strconv.FormatInt(h, 10))
-		// every validator of height h precommits block h
+		// every validator of height h precommits block h -- except that at the heights in nilAt
+		// the last one (lowest power, behind the quorum) genuinely precommits nil
 		sigs := make([]types.CommitSig, state.Validators.Size())
 		for i, val := range state.Validators.Validators {
 			pv := ch.privs[hex.EncodeToString(val.Address)]
-			sigs[i] = c13SignVote(pv, val.Address, int32(i), h, bid, ch.t0.Add(time.Duration(h)*time.Second)).CommitSig()
+			voteFor := bid
+			if ch.nilAt[h] && i == state.Validators.Size()-1 {
+				voteFor = types.BlockID{}
+			}
+			sigs[i] = c13SignVote(pv, val.Address, int32(i), h, voteFor, ch.t0.Add(time.Duration(h)*time.Second)).CommitSig()
 		}
 		ch.commits[h] = types.NewCommit(h, 0, bid, sigs)
 		state, _, err = blockExec.ApplyBlock(state, bid, block)
@@ -280,6 +291,8 @@ func (ch *c13Chain) absCommit(c *types.Commit, vs *types.ValidatorSet) map[strin
 				slots = append(slots, "X")
 			case ok && addrOK:
 				slots = append(slots, "N")
+			case ok:
+				slots = append(slots, "Q")
 			default:
 				slots = append(slots, "M")
 			}
@@ -312,18 +325,21 @@ func c13QIdx(pows []int64) int { // 1-based slot at which the early-exit walk ov
 }
 
 // mirrors SlotsOfKind of the spec (this is the generator; what the bytes are is decided
-// by absCommit, and the trace spec compares the two)
-func c13SlotsOfKind(kind string, pows []int64) []string {
+// by absCommit, and the trace spec compares the two).  gen = the genuine slots ("C", and
+// "N" where the validator precommitted nil).
+func c13SlotsOfKind(kind string, pows []int64, gen []string) []string {
 	n, k := len(pows), c13QIdx(pows)
 	out := make([]string, n)
 	for i := 1; i <= n; i++ {
-		s := "C"
+		s := gen[i-1]
 		switch kind {
 		case "quorumOnly":
+			s = "C"
 			if i > k {
 				s = "A"
 			}
 		case "noQuorum":
+			s = "C"
 			if i >= k {
 				s = "A"
 			}
@@ -332,14 +348,24 @@ func c13SlotsOfKind(kind string, pows []int64) []string {
 				s = "X"
 			}
 		case "padBad", "padNil", "padAddr":
-			if i == k+1 {
+			switch {
+			case i <= k:
+				s = "C"
+			case i == k+1:
 				s = map[string]string{"padBad": "X", "padNil": "M", "padAddr": "R"}[kind]
-			} else if i > k+1 {
+				if kind == "padAddr" && gen[i-1] == "N" {
+					s = "Q"
+				}
+			default:
 				s = "A"
 			}
 		case "addrEarly":
 			if i == 1 {
 				s = "R"
+			}
+		case "nilAddr":
+			if s == "N" {
+				s = "Q"
 			}
 		}
 		out[i-1] = s
@@ -350,9 +376,21 @@ func c13SlotsOfKind(kind string, pows []int64) []string {
 	return out
 }
 
+func (ch *c13Chain) genSlots(g int64) []string {
+	n := ch.valsAt(g).Size()
+	out := make([]string, n)
+	for i := range out {
+		out[i] = "C"
+	}
+	if ch.nilAt[g] {
+		out[n-1] = "N"
+	}
+	return out
+}
+
 func c13IsCommitKind(kind string) bool {
 	switch kind {
-	case "quorumOnly", "noQuorum", "badEarly", "padBad", "padNil", "padAddr", "addrEarly", "shortSet":
+	case "quorumOnly", "noQuorum", "badEarly", "padBad", "padNil", "padAddr", "addrEarly", "shortSet", "nilAddr":
 		return true
 	}
 	return false
@@ -371,16 +409,19 @@ func (ch *c13Chain) buildCommit(g int64, slots []string) *types.Commit {
 		case "A":
 			cs = types.NewCommitSigAbsent()
 		case "X":
+			cs.BlockIDFlag = types.BlockIDFlagCommit // (a genuine nil signature under the commit flag does not verify either)
 			cs.Signature[0] ^= 0xff
-		case "R":
+		case "R", "Q": // the genuine signature (commit resp. nil) under another validator's address
 			cs.ValidatorAddress = append([]byte{}, vs.Validators[(i+1)%vs.Size()].Address...)
 		case "M":
 			cs.BlockIDFlag = types.BlockIDFlagNil
 			cs.Signature[1] ^= 0xff
 		case "N":
-			val := vs.Validators[i]
-			cs = c13SignVote(ch.privs[hex.EncodeToString(val.Address)], val.Address, int32(i), g, types.BlockID{},
-				gen.Signatures[i].Timestamp).CommitSig()
+			if gen.Signatures[i].BlockIDFlag != types.BlockIDFlagNil {
+				val := vs.Validators[i]
+				cs = c13SignVote(ch.privs[hex.EncodeToString(val.Address)], val.Address, int32(i), g, types.BlockID{},
+					gen.Signatures[i].Timestamp).CommitSig()
+			}
 		}
 		sigs[i] = cs
 	}
@@ -439,7 +480,7 @@ func (ch *c13Chain) liarBlock(kind string, h int64) *types.Block {
 		if h == 1 {
 			return ch.blocks[h]
 		}
-		slots := c13SlotsOfKind(kind, c13Pows(ch.valsAt(h-1)))
+		slots := c13SlotsOfKind(kind, c13Pows(ch.valsAt(h-1)), ch.genSlots(h-1))
 		nb = c13WithLastCommit(ch.blocks[h], ch.buildCommit(h-1, slots))
 	default:
 		return nil
